@@ -355,6 +355,15 @@ func c19Scenario(spec *c19Spec) *Scenario {
 				m.W.killFn = func(p *wpkt) bool { return p.from == 0 && isType(p, wDATA) }
 				sa.WriteSCTP(payload(1, 0, 50), PayloadTypeWebRTCBinary)
 				m.Sleep(run)
+				if spec.rtoMax != 0 && spec.rtoMax < 1000 {
+					// a round-trip sample: the RTO computed from it is bounded like the initial one
+					m.W.killFn = nil
+					m.As[0].ActiveHeartbeat()
+					m.Sleep(500 * time.Millisecond)
+					if rto := m.As[0].rtoMgr.getRTO(); rto < 1000 {
+						m.Failf("rto.bounds", "RTO.max configured as %v ms: after a round-trip sample the retransmission timeout is %v ms, below the protocol minimum of 1000 ms", spec.rtoMax, rto)
+					}
+				}
 			case "shutdown-blackhole":
 				m.W.killFn = func(p *wpkt) bool { return p.from == 0 && isType(p, wSHUTDOWN) }
 				m.Go("shut", func() {
